@@ -166,7 +166,8 @@ void GlobalPlacer::run() {
     std::cout << std::fixed << std::setprecision(1) << "\tDist " << dist / averageCellLength_;
     std::cout << std::flush;
 
-    float gap = (ub - lb) / ub;
+    // Without any wirelength to optimize the gap is 0/0: consider it closed
+    float gap = ub > 0.0f ? (ub - lb) / ub : 0.0f;
     // Stop if distance or the difference between LB and UB is small enough
     if (gap < params_.global.gapTolerance || dist < distanceTolerance()) {
       std::cout << std::endl;
